@@ -26,8 +26,8 @@ Alphas == {15, 25, 35}   \* degrees (the tangent is applied by the harness)
 Ratios == {<<1, 1, 1, 1>>, <<1, 8, 1, 4>>, <<8, 1, 4, 1>>, <<1, 27, 1, 9>>}
 Ss     == {<<1, 1>>, <<2, 1>>, <<1, 2>>}
 
-VARIABLES model, E, nu, r, d, al, ratio, s
-vars == <<model, E, nu, r, d, al, ratio, s>>
+VARIABLES model, E, nu, nuL, r, d, al, ratio, s
+vars == <<model, E, nu, nuL, r, d, al, ratio, s>>
 
 Init == /\ model \in Models /\ E \in Es /\ nu \in Nus /\ r \in Rs
         /\ d \in Ds /\ d <= r
@@ -40,6 +40,9 @@ Init == /\ model \in Models /\ E \in Es /\ nu \in Nus /\ r \in Rs
         /\ (model \in {"hertz_cone", "hertz_pyr3s",
                        "power_layer_clifford_2009"} => r = 1 \/ d > 0)
         /\ (model = "power_layer_clifford_2009" => d > 0 /\ nu # <<1, 3>>)
+        \* the layer has a Poisson's ratio of its own (it enters xi only)
+        /\ nuL \in (IF model = "power_layer_clifford_2009"
+                    THEN Nus \ {<<1, 3>>} ELSE {nu})
 Next == UNCHANGED vars
 Spec == Init /\ [][Next]_vars
 
@@ -83,7 +86,8 @@ Value(mod, m, v, rr, dd, rat, ss) ==
 
 \* ---- what the harness gets for every lattice point
 Emit ==
-  PrintT(ToJson([model |-> model, E |-> E, nu |-> nu, r |-> r, d |-> d,
+  PrintT(ToJson([model |-> model, E |-> E, nu |-> nu, nuL |-> nuL,
+                 r |-> r, d |-> d,
                  alpha |-> al, ratio |-> ratio, s |-> s,
                  value |-> Value(model, E, nu, r, d, ratio, s),
                  series |-> IF model = "sneddon_spher_approx"
